@@ -2,3 +2,4 @@
 /repo is never annotated; each harness re-reads the function source from /repo when it runs."""
 from . import c_blocks  # noqa: F401
 from . import c_args  # noqa: F401
+from . import c_flags  # noqa: F401
